@@ -15,6 +15,11 @@ type Answer struct {
 	Drop   bool              // close the connection without answering
 	Hold   chan struct{}     // when non-nil the answer is delayed until the channel is closed
 	Header map[string]string // extra response headers (e.g. Retry-After)
+	// MemberOf, when non-nil on a /profile answer, makes the fake behave like the real authenticator:
+	// it reports the groups of MemberOf that occur in the request's (first) `groups` parameter, in the
+	// order asked, instead of a fixed body. Body is ignored then.
+	MemberOf []string
+	Email    string
 }
 
 // AuthCall is one back-channel call the proxy made to the (fake) authenticator.
@@ -167,6 +172,22 @@ func (f *FakeAuth) serve(w http.ResponseWriter, r *http.Request) {
 		}
 		panic(http.ErrAbortHandler)
 	}
+	if a.MemberOf != nil && c.Endpoint == "profile" {
+		asked := []string{}
+		if g := r.Form.Get("groups"); g != "" {
+			asked = strings.Split(g, ",")
+		}
+		in := []string{}
+		for _, want := range asked {
+			for _, have := range a.MemberOf {
+				if want == have {
+					in = append(in, want)
+					break
+				}
+			}
+		}
+		a.Body = js(map[string]interface{}{"email": a.Email, "groups": in})
+	}
 	if strings.HasPrefix(strings.TrimSpace(a.Body), "{") {
 		w.Header().Set("Content-Type", "application/json")
 	}
@@ -198,6 +219,15 @@ func ProfileOK(email string, groups []string) Answer {
 		groups = []string{}
 	}
 	return Answer{Status: 200, Body: js(map[string]interface{}{"email": email, "groups": groups})}
+}
+
+// ProfileFaithful is a /profile answer computed like the real authenticator computes it: the
+// groups the user is a member of, restricted to the groups the request asked about.
+func ProfileFaithful(email string, memberOf []string) Answer {
+	if memberOf == nil {
+		memberOf = []string{}
+	}
+	return Answer{Status: 200, MemberOf: memberOf, Email: email}
 }
 
 // Status is a bare status answer.
